@@ -84,8 +84,12 @@ def ofCfg (conf : Cfg) : Except Refusal Params := do
     | _ => 0
   -- ParticleReleaser
   let continuous := (getD release "continuous" (.bool false)).truthy
-  let relFreq ← if continuous then (normalizePeriod (periodOf (getD release "release_frequency" (.num 0)))).map some
-                else pure none
+  -- a continuous release with frequency 0 cannot be laid out on a time axis (`np.arange` with step 0: ValueError)
+  let relFreq ← if continuous then
+      (match normalizePeriod (periodOf (getD release "release_frequency" (.num 0))) with
+       | .ok f => if f = 0 then .error .valueError else .ok (some f)
+       | .error e => .error e)
+    else pure none
   pure {
     dt := dt, rev := rev, hasRef := (getD time "reference" .null).truthy,
     advection := adv,
